@@ -153,7 +153,7 @@ class Model:
             if len(a.atom_types):
                 call(a.save_lmpdat, io.StringIO())
                 if a.cell is not None:
-                    call(a.cell_abc_alpha_beta_gamma); call(a.save_p1_cif, io.StringIO()) if hasattr(a, 'save_p1_cif') else None
+                    call(a.cell_abc_alpha_beta_gamma); call(a.cell_is_orthorhombic)
         inputs = []          # [(name, object)] handed to the operation besides the structure it works on; must come back untouched and unshared
 
         def real(f, *args, **kw):
